@@ -130,6 +130,12 @@ def judge (prop : String) (j : Json) : R Verdict := do
         if c.startsWith "panic:" then spec := spec ++ ["no-panic:resolve_tx:" ++ c]
       | _ => pure ()
   if prop == "C07" then
+    -- the hypothesis of the idempotence theorem holds of what is about to be reduced
+    let valuesNF := args.all (fun kv => Expr.NF kv.2) && inputs.all (fun kv => Expr.NF kv.2)
+    if !(tx.slots.all Expr.WF) then corr := corr ++ ["wf:template"]
+    else if !valuesNF then tags := tags ++ ["wf:values-not-in-normal-form"]
+    else if !(applied.slots.all Expr.WF) then corr := corr ++ ["wf:applied"]
+    else tags := tags ++ ["wf-holds"]
     let r0 := fieldD obs "reduced0"
     let r0t := fieldD obs "reduced0_twice"
     if !(isNull r0t) then
